@@ -496,10 +496,14 @@ func ancestorLemma(p *Program, call *ssa.Call) bool {
 // ---------------------------------------------------------------------------
 // R04c LOOP INVENTORY (typed AST + SSA for the consume check).
 
+// reviewedLoops: functions that contain ONE loop no idiom matches, reviewed by
+// hand, with the termination argument. Keyed by function, not by the text of
+// the condition: rewriting the loop (`for c {}` as `for { if !c { break } }`,
+// naming the condition) must not raise an alarm; a SECOND non-idiomatic loop in
+// the same function does.
 var reviewedLoops = map[string]string{
-	// function -> condition of the reviewed loop, with the termination argument
-	"calculateHashes|row <= totalRows": "every iteration consumes one element of toProve/nextProves (checked: CONSUME) and appends at most one parent one row higher",
-	"inForest|pos & marker != 0":       "pos < mask has a zero bit below the marker; each iteration shifts it one place towards the marker",
+	"calculateHashes": "the loop over the rows: every iteration consumes one element of toProve/nextProves (checked: CONSUME) and appends at most one parent one row higher",
+	"inForest":        "the walk to the rightmost leaf: pos < mask has a zero bit below the marker; each iteration shifts it one place towards the marker",
 }
 
 type loopCls struct {
@@ -751,6 +755,9 @@ func conjuncts(e ast.Expr) []ast.Expr {
 func classifyFor(p *Program, fname string, fs *ast.ForStmt) loopCls {
 	info := p.Info
 	if fs.Cond == nil {
+		if why, ok := reviewedLoops[fname]; ok {
+			return loopCls{"reviewed", why}
+		}
 		return loopCls{"", "loop without a condition"}
 	}
 	condStr := types.ExprString(fs.Cond)
@@ -863,7 +870,7 @@ func classifyFor(p *Program, fname string, fs *ast.ForStmt) loopCls {
 		}
 	}
 	// 5. reviewed table
-	if why, ok := reviewedLoops[fname+"|"+condStr]; ok {
+	if why, ok := reviewedLoops[fname]; ok {
 		return loopCls{"reviewed", why}
 	}
 	return loopCls{"", "condition " + condStr + " matches no terminating idiom"}
@@ -882,6 +889,7 @@ func unparen(e ast.Expr) ast.Expr {
 func runLoopInventory(p *Program, r *Report, a *verifyAnchors) {
 	nLoops := 0
 	kinds := map[string]int{}
+	reviewedIn := map[string]int{}
 	for _, fn := range sortedFuncs(p, a.vc) {
 		syn := p.funcSyntax(fn)
 		if syn == nil {
@@ -922,6 +930,13 @@ func runLoopInventory(p *Program, r *Report, a *verifyAnchors) {
 					return true
 				}
 				kinds[cls.kind]++
+				if cls.kind == "reviewed" {
+					reviewedIn[base]++
+					if reviewedIn[base] > 1 {
+						r.Violate("R04c", key, p.Pos(x.Pos()), "a second loop that matches no terminating idiom in "+base+", where one such loop was reviewed: termination on arbitrary input is not evident", "in "+name)
+						return true
+					}
+				}
 				r.Discharge("R04c", key, p.Pos(x.Pos()), cls.kind+": "+cls.detail, true)
 				if cls.kind == "reviewed" && strings.HasPrefix(base, "calculateHashes") {
 					checkConsume(p, r, fn, x, key+"/consume")
